@@ -21,6 +21,26 @@ func (c *FnCtx) defFresh(ins ssa.Value) Term {
 	return name
 }
 
+// stableName gives a source-level name for an SSA value where one exists (never a register name,
+// which would change under unrelated edits).
+func stableName(v ssa.Value) string {
+	switch x := v.(type) {
+	case *ssa.Parameter:
+		return x.Name()
+	case *ssa.FreeVar:
+		return x.Name()
+	case *ssa.Const:
+		return x.Name()
+	case *ssa.Global:
+		return x.Name()
+	case *ssa.Phi:
+		if x.Comment != "" {
+			return x.Comment
+		}
+	}
+	return "_"
+}
+
 func (c *FnCtx) safetyOb(kind string, pos token.Pos, want string, fallback string) *Oblig {
 	txt := c.g.exprTextAt(pos, want)
 	if txt == "" {
@@ -76,12 +96,12 @@ func (c *FnCtx) instr(ins ssa.Instruction) {
 		switch u := x.X.Type().Underlying().(type) {
 		case *types.Slice:
 			s := c.v(x.X)
-			o := c.safetyOb("index", x.Pos(), "index", x.X.Name()+"["+x.Index.Name()+"]")
+			o := c.safetyOb("index", x.Pos(), "index", stableName(x.X)+"["+stableName(x.Index)+"]")
 			c.assert(o, and(app("<=", "0", idx), app("<", idx, app("s-len", s))))
 			c.locs[x] = &Loc{Kind: "elem", Comp: c.elemComp(u.Elem()), Ref: app("s-ref", s), Idx: idxAt(app("s-off", s), idx), T: u.Elem(), Root: u.Elem()}
 		case *types.Pointer:
 			arr := u.Elem().Underlying().(*types.Array)
-			o := c.safetyOb("index", x.Pos(), "index", x.X.Name()+"["+x.Index.Name()+"]")
+			o := c.safetyOb("index", x.Pos(), "index", stableName(x.X)+"["+stableName(x.Index)+"]")
 			c.assert(o, and(app("<=", "0", idx), app("<", idx, num(arr.Len()))))
 			if bl, ok := c.locs[x.X]; ok {
 				nl := *bl
@@ -100,12 +120,12 @@ func (c *FnCtx) instr(ins ssa.Instruction) {
 		idx := c.v(x.Index)
 		switch u := x.X.Type().Underlying().(type) {
 		case *types.Array:
-			o := c.safetyOb("index", x.Pos(), "index", x.X.Name()+"["+x.Index.Name()+"]")
+			o := c.safetyOb("index", x.Pos(), "index", stableName(x.X)+"["+stableName(x.Index)+"]")
 			c.assert(o, and(app("<=", "0", idx), app("<", idx, num(u.Len()))))
 			c.def(x, app("select", c.v(x.X), idx))
 		case *types.Basic: // string
 			s := c.v(x.X)
-			o := c.safetyOb("index", x.Pos(), "index", x.X.Name()+"["+x.Index.Name()+"]")
+			o := c.safetyOb("index", x.Pos(), "index", stableName(x.X)+"["+stableName(x.Index)+"]")
 			c.assert(o, and(app("<=", "0", idx), app("<", idx, app("str-len", s))))
 			c.def(x, app("select", app("str-arr", s), idx))
 			c.assume(and(app("<=", "0", c.vals[x]), app("<=", c.vals[x], "255")))
@@ -245,14 +265,14 @@ func (c *FnCtx) slice(x *ssa.Slice) {
 		lo := opt(x.Low, "0")
 		hi := opt(x.High, app("s-len", s))
 		mx := opt(x.Max, app("s-cap", s))
-		o := c.safetyOb("slice", x.Pos(), "slice", x.X.Name()+"[:]")
+		o := c.safetyOb("slice", x.Pos(), "slice", stableName(x.X)+"[:]")
 		c.assert(o, and(app("<=", "0", lo), app("<=", lo, hi), app("<=", hi, mx), app("<=", mx, app("s-cap", s))))
 		c.def(x, app("mk-slice", app("s-ref", s), plus(app("s-off", s), lo), minus(hi, lo), minus(mx, lo)))
 	case *types.Basic:
 		s := c.v(x.X)
 		lo := opt(x.Low, "0")
 		hi := opt(x.High, app("str-len", s))
-		o := c.safetyOb("slice", x.Pos(), "slice", x.X.Name()+"[:]")
+		o := c.safetyOb("slice", x.Pos(), "slice", stableName(x.X)+"[:]")
 		c.assert(o, and(app("<=", "0", lo), app("<=", lo, hi), app("<=", hi, app("str-len", s))))
 		c.def(x, app("mk-str", app("arrshift", app("str-arr", s), lo), minus(hi, lo)))
 	case *types.Pointer:
@@ -261,7 +281,7 @@ func (c *FnCtx) slice(x *ssa.Slice) {
 		lo := opt(x.Low, "0")
 		hi := opt(x.High, n)
 		mx := opt(x.Max, n)
-		o := c.safetyOb("slice", x.Pos(), "slice", x.X.Name()+"[:]")
+		o := c.safetyOb("slice", x.Pos(), "slice", stableName(x.X)+"[:]")
 		c.assert(o, and(app("<=", "0", lo), app("<=", lo, hi), app("<=", hi, mx), app("<=", mx, n)))
 		if _, ok := c.locs[x.X]; ok {
 			// array embedded in another object: contents not tracked through the slice
@@ -282,7 +302,7 @@ func (c *FnCtx) lookup(x *ssa.Lookup) {
 	case *types.Basic: // string index
 		s := c.v(x.X)
 		idx := c.v(x.Index)
-		o := c.safetyOb("index", x.Pos(), "index", x.X.Name()+"["+x.Index.Name()+"]")
+		o := c.safetyOb("index", x.Pos(), "index", stableName(x.X)+"["+stableName(x.Index)+"]")
 		c.assert(o, and(app("<=", "0", idx), app("<", idx, app("str-len", s))))
 		c.def(x, app("select", app("str-arr", s), idx))
 		c.assume(and(app("<=", "0", c.vals[x]), app("<=", c.vals[x], "255")))
@@ -328,7 +348,7 @@ func (c *FnCtx) mapComps(mt *types.Map) (has, val, ln string) {
 func (c *FnCtx) mapUpdate(x *ssa.MapUpdate) {
 	mt := x.Map.Type().Underlying().(*types.Map)
 	m := c.v(x.Map)
-	o := c.safetyOb("mapnil", x.Pos(), "index", x.Map.Name())
+	o := c.safetyOb("mapnil", x.Pos(), "index", stableName(x.Map))
 	c.assert(o, not(eq(m, "0")))
 	k := c.mapKey(c.v(x.Key), mt.Key())
 	v := c.v(x.Value)
@@ -512,7 +532,7 @@ func (c *FnCtx) binop(x *ssa.BinOp) {
 		c.overflowCheck(x, app("*", a, b))
 		c.def(x, c.wrap(app("*", a, b), t))
 	case token.QUO:
-		o := c.safetyOb("div", x.Pos(), "div", x.X.Name()+"/"+x.Y.Name())
+		o := c.safetyOb("div", x.Pos(), "div", stableName(x.X)+"/"+stableName(x.Y))
 		c.assert(o, not(eq(b, "0")))
 		if k, ok := constInt(x.Y); ok && k > 0 {
 			_, _, _, signed := intRange(t)
@@ -525,7 +545,7 @@ func (c *FnCtx) binop(x *ssa.BinOp) {
 			c.def(x, c.wrap(app("godiv", a, b), t))
 		}
 	case token.REM:
-		o := c.safetyOb("div", x.Pos(), "div", x.X.Name()+"%"+x.Y.Name())
+		o := c.safetyOb("div", x.Pos(), "div", stableName(x.X)+"%"+stableName(x.Y))
 		c.assert(o, not(eq(b, "0")))
 		if k, ok := constInt(x.Y); ok && k > 0 {
 			_, _, _, signed := intRange(t)
@@ -687,7 +707,7 @@ func (c *FnCtx) typeAssert(x *ssa.TypeAssert) {
 		c.tuples[x] = []Term{a, b}
 		return
 	}
-	o := c.safetyOb("typeassert", x.Pos(), "typeassert", x.X.Name()+".("+at.String()+")")
+	o := c.safetyOb("typeassert", x.Pos(), "typeassert", stableName(x.X)+".("+at.String()+")")
 	c.assert(o, ok)
 	c.def(x, val)
 	c.assume(c.tyInv(c.vals[x], at))
